@@ -91,6 +91,26 @@ impl Prop for P {
             let p = 1 + rng.below(NPATTERNS as u64 - 1) as usize;
             let vals = value_pattern(p, ks.len(), rng);
             cases.push(build_case("extend", "raw_loop", 0, g.0, g.1, &map_ops(&with_values(&ks, &vals))));
+            // the same keys with rejected calls in between whose errors are ignored (stragglers smaller than the
+            // last key, duplicates): a rejected call changes nothing, so sharing is that of the accepted keys
+            if ks.len() >= 3 && ks.len() <= 300 && rng.chance(1, 2) {
+                let clean = if rng.chance(1, 2) { set_ops(&ks) } else { map_ops(&with_values(&ks, &vals)) };
+                let mut dirty: Vec<Op> = vec![];
+                for (i, o) in clean.iter().enumerate() {
+                    dirty.push(o.clone());
+                    if i >= 1 && rng.chance(1, 3) {
+                        dirty.push(clean[rng.below(i as u64) as usize].clone());
+                        if rng.chance(1, 2) {
+                            dirty.push(clean[i - 1].clone());
+                        }
+                        if matches!(o, Op::Insert(..)) && rng.chance(1, 2) {
+                            dirty.push(o.clone());
+                        }
+                    }
+                }
+                cases.push(build_case("calls", "raw", 0, g.0, g.1, &dirty));
+                stats.bump("histories_with_ignored_rejected_calls");
+            }
         }
         cases
     }
@@ -103,9 +123,17 @@ impl Prop for P {
         let p: Vec<&str> = case.split(' ').collect();
         let rows: usize = p[4].parse().unwrap();
         let cols: usize = p[5].parse().unwrap();
-        let ops = parse_ops(p[6]);
+        let all_ops = parse_ops(p[6]);
+        // a `calls` history may hold rejected calls: the sharing checks are about the accepted ones
+        let (ops, out) = if p[1] == "calls" {
+            let out = exec_build("calls", "raw", 0, rows, cols, &all_ops);
+            let acc: Vec<Op> = all_ops.iter().zip(out.results.iter()).filter(|(_, r)| *r == "ok").map(|(o, _)| o.clone()).collect();
+            (acc, out)
+        } else {
+            let out = exec_build("extend", "raw_loop", 0, rows, cols, &all_ops);
+            (all_ops, out)
+        };
         let is_set = ops.iter().all(|o| matches!(o, Op::Add(..)));
-        let out = exec_build("extend", "raw_loop", 0, rows, cols, &ops);
         let st = out.stats.unwrap();
         let f = Fst::new(out.bytes.unwrap()).unwrap();
         let info = node_info(&f);
